@@ -26,6 +26,7 @@ import (
 	"fmt"
 	"os"
 	"path/filepath"
+	"strconv"
 	"strings"
 	"testing"
 	"time"
@@ -58,6 +59,8 @@ type c22Machine struct {
 	loadedOnce                  bool
 	invalidKinds                map[string]bool
 	restoresFailed0             string
+	loadDuringPersist           bool
+	nCopy                       int
 }
 
 const c22Heartbeat = 300 * time.Millisecond
@@ -383,8 +386,99 @@ func (m *c22Machine) snapshot() {
 			m.snapAfterLoad = true
 		}
 		m.hist = append(m.hist, "SNAP("+n.id+")")
+		// nothing has been applied since: the node's snapshot store alone must
+		// restore to exactly what the node holds now
+		m.nCopy++
+		dst := filepath.Join(m.base, fmt.Sprintf("rcopy%d", m.nCopy))
+		live, lerr := g8aDumpLive(n.s)
+		d, ic, openErr, infraErr := g8aRestoreOnly(n.dir, dst, n.id)
+		os.RemoveAll(dst)
+		if infraErr == nil && lerr == nil {
+			m.hist = append(m.hist, "RESTORE-COPY("+n.id+")")
+			if openErr != nil {
+				m.fail("C22/snapshot-store-not-restorable", "a copy of %s's data directory cannot be restored from its snapshot store: %v", n.id, openErr)
+			}
+			if d != live || ic != "ok" {
+				m.fail("C22/snapshot-restore-differs", "%s's snapshot store restores to something else than the node holds (integrity %q): %s; node {%s} restored {%s}", n.id, ic, g8aFirstDiff(d, live), g8aSummary(live), g8aSummary(d))
+			}
+		}
 	} else {
 		m.hist = append(m.hist, "SNAP("+n.id+",err)")
+	}
+}
+
+// snapshotWithApplyDuringPersist takes a snapshot of the leader in raft's own
+// order (FSM.Snapshot, then - on raft's snapshot goroutine - Create sink,
+// Persist, Close, Release) and lets the FSM apply a load or a write between
+// FSM.Snapshot and Persist, which is what happens when a request arrives while
+// a (large) snapshot is still being persisted. Index, term and configuration
+// are taken as raft takes them: at the time of FSM.Snapshot.
+func (m *c22Machine) snapshotWithApplyDuringPersist() {
+	l := m.leader()
+	if l == nil || !m.settle() {
+		return
+	}
+	if rapid.Bool().Draw(m.rt, "loadFirst") {
+		// a load makes the snapshot that is about to be persisted a full one
+		m.loadValid()
+		if m.done {
+			return
+		}
+		l = m.leader()
+		if l == nil || !m.settle() {
+			return
+		}
+	}
+	idx, term := l.fsmIdx.Load(), l.fsmTerm.Load()
+	cf := l.raft.GetConfiguration()
+	// (ConfigurationFuture.Index() of GetConfiguration is always 0; the index of
+	// the latest configuration is only published through Stats)
+	cfIdx, perr := strconv.ParseUint(l.raft.Stats()["latest_configuration_index"], 10, 64)
+	if cf.Error() != nil || perr != nil || cfIdx == 0 || idx == 0 || idx < cfIdx {
+		return // raft itself would refuse to persist now
+	}
+	f, err := NewFSM(l).Snapshot()
+	if err != nil {
+		m.hist = append(m.hist, "HSNAP(fsm err)")
+		return
+	}
+	what := rapid.SampledFrom([]string{"load", "load", "write", "nothing"}).Draw(m.rt, "duringPersist")
+	m.hist = append(m.hist, "HSNAP-BEGIN")
+	switch what {
+	case "load":
+		m.loadValid()
+	case "write":
+		m.write(false)
+	}
+	if m.done {
+		f.Release()
+		return
+	}
+	sink, err := l.snapshotStore.Create(1, idx, term, cf.Configuration(), cfIdx, l.raftTn)
+	if err != nil {
+		f.Release()
+		m.hist = append(m.hist, "HSNAP(create err)")
+		return
+	}
+	if err := f.Persist(sink); err != nil {
+		sink.Cancel()
+		m.hist = append(m.hist, "HSNAP-END(persist err)")
+	} else {
+		sink.Close()
+		m.hist = append(m.hist, "HSNAP-END(ok,during="+what+")")
+		if what == "load" {
+			m.loadDuringPersist = true
+		}
+		if m.loadedOnce {
+			m.snapAfterLoad = true
+		}
+	}
+	f.Release()
+	if !m.done && rapid.IntRange(0, 3).Draw(m.rt, "followUp") != 0 {
+		m.write(rapid.Bool().Draw(m.rt, "big"))
+		if !m.done {
+			m.snapshot()
+		}
 	}
 }
 
@@ -497,16 +591,17 @@ func c22Case(rt *rapid.T, rec *vstat.Rec) {
 	snapStep := guard(m.snapshot)
 	invalidStep := guard(func() { m.invalid(rapid.IntRange(0, 3).Draw(m.rt, "viaBoot") == 0) })
 	rt.Repeat(map[string]func(*rapid.T){
-		"write":     writeStep,
-		"write-2":   writeStep,
-		"write-3":   writeStep,
-		"load":      loadStep,
-		"load-2":    loadStep,
-		"sql-load":  guard(m.loadSQL),
-		"boot":      guard(m.boot),
-		"invalid":   invalidStep,
-		"snapshot":  snapStep,
-		"snapshot2": snapStep,
+		"write":                              writeStep,
+		"write-2":                            writeStep,
+		"write-3":                            writeStep,
+		"load":                               loadStep,
+		"load-2":                             loadStep,
+		"sql-load":                           guard(m.loadSQL),
+		"boot":                               guard(m.boot),
+		"invalid":                            invalidStep,
+		"snapshot":                           snapStep,
+		"snapshot2":                          snapStep,
+		"snapshot-with-apply-during-persist": guard(m.snapshotWithApplyDuringPersist),
 		"restart": guard(func() {
 			m.restart(rapid.IntRange(0, len(m.nodes)-1).Draw(m.rt, "restartNode"), rapid.Bool().Draw(m.rt, "noSnapshotOnClose"))
 		}),
@@ -593,6 +688,9 @@ func c22Case(rt *rapid.T, rec *vstat.Rec) {
 	}
 	if m.snapAfterLoad {
 		rec.Label("snapshot-after-load")
+	}
+	if m.loadDuringPersist {
+		rec.Label("load-applied-during-snapshot-persist")
 	}
 	rec.Sample(strings.Join(m.hist, " ; "))
 }
